@@ -16,6 +16,8 @@ def main():
         i=only.index('--budget'); budget=float(only[i+1]); del only[i:i+2]
     import time; t0=time.time(); results=[]; skipped=0
     env=''
+    fast='--fast' in only
+    if fast: only.remove('--fast')
     if '--scratch' in only:
         # work on a throw-away copy so that /repo and /verif/evidence stay untouched (safe to run beside other checks)
         only.remove('--scratch')
@@ -44,7 +46,16 @@ def main():
             b=sh('cd %s && go build ./%s/'%(REPO,os.path.dirname(e['file'])))
             if b.returncode!=0:
                 print('NOBUILD %-8s %s: %s'%(e['prop'],e['name'],b.stderr[:200])); bad+=1; continue
-            r=sh('cd /verif && %s./check %s --tier quick'%(env,e['prop']))
+            only=''
+            if fast and e['expect']=='fail' and '#' in e.get('obligation',''):
+                # the named obligation belongs to one function: generating only that function's VCs and solving only
+                # the named obligation decides the entry (the full check generates a superset of the same obligations)
+                import re
+                fn=e['obligation'].split('#')[0]
+                fn=re.split(r'[.)]',fn)[-1]
+                fn=re.sub(r'(_\d+)+$','',fn)
+                if len(fn)>=3: only=" --only '%s' --oblig '%s'"%(fn,e['obligation'])
+            r=sh('cd /verif && %s./check %s --tier quick%s'%(env,e['prop'],only))
             viol=[l for l in r.stdout.splitlines() if l.startswith('VIOLATION')]
             failed = r.returncode!=0
             ok = (failed if e['expect']=='fail' else not failed)
